@@ -532,6 +532,13 @@ class Exec:
         """-> (out, dump | None)  (None: the dump is what it was before)"""
         P = mods()["P"]
         self._op0 = op0
+        refs = ([op0[1]] if op0[0] in ("free", "attach") else []) + \
+               ([op0[2][1]] if op0[0] == "free" and op0[2][0] == "attach" else [])
+        if any(r not in self.free for r in refs):
+            # a replayed sequence names an object that is not free here (the model answers OOutside too): end of the sequence
+            self.outside = True
+            self.nops += 1
+            return ["outside"], None
         if op0[0] == "free":               # the operation op0[2] on the parent-less object op0[1]
             op = op0[2]
             self.T, self.Tref = self.free[op0[1]], self.reffree[op0[1]]
@@ -733,8 +740,8 @@ def run_ops(ops, oracle=True):
     for op in ops:
         out, d = ex.apply(op)
         obs.append((op, out, d))
-        if ex.outside:
-            break              # an accepted re-add: what follows is outside the tree model
+        if ex.outside or ex.bad is not None:
+            break              # an accepted re-add: what follows is outside the tree model / a clause is violated already
     return ex, obs
 
 
